@@ -27,6 +27,8 @@ LEVELSETS = {
     "str": lambda n: [f"l{i:02d}" for i in range(n)],
     "int": lambda n: [i - 1 for i in range(n)],  # includes -1, 0 (falsy) and positive ints
     "mixed-falsy": lambda n: ["", "0", "a", "b", "c", "d", "e", "f", "g", "h", "i", "j"][:n],
+    "near": lambda n: ["B", "a", "b", "a ", " a", "A", "b ", "Ab", "aB", "AB", "ab", "ab "][:n],  # differ only in case / surrounding blanks
+    "num-or-text": lambda n: [1, "1", 2, "2", 0, "0", -1, "-1", 10, "10", 3, "3"][:n],  # a number and the text that prints the same
 }
 
 
@@ -79,7 +81,8 @@ def check_algebra(case, acc):
             exp_labels = [lab(l) for i, l in enumerate(levels) if i != refi]
             if list(red.labels) != exp_labels:
                 problems.append(("treatment", f"{tag}: labels {list(red.labels)}, expected {exp_labels}"))
-            expM = np.array([[1.0 if (i != refi and lab(levels[i]) == c) else 0.0 for c in exp_labels] for i in range(n)]).reshape(n, n - 1)
+            others = [i for i in range(n) if i != refi]  # (by position: two levels may print the same)
+            expM = np.array([[1.0 if i == o else 0.0 for o in others] for i in range(n)]).reshape(n, n - 1)
             if not np.array_equal(M, expM):
                 problems.append(("treatment", f"{tag}: columns are not the level indicators with a zero reference row"))
         if F.shape != (n, n) or linalg.rank(F) != n or list(full.labels) != [lab(l) for l in levels] or not np.array_equal(F, np.eye(n)):
